@@ -950,6 +950,179 @@ theorem freshStarts_finishes : ∀ (ids : List Nat) (h : HSt), FreshStarts h (id
   | [], _ => trivial
   | _ :: ids, _ => ⟨rfl, freshStarts_finishes ids _⟩
 
+/-! ### `execute_operation` keeps the tracking invariant of every other operation -/
+
+theorem kinv_acquire_other {s : Sys} {c : Ctx} {op' : Nat} (ho : op' ≠ c.id) (hk : Kinv s op') (r : Nat) :
+    Kinv (acquire s c r).1 op' := by
+  cases hl : s.locks r with
+  | none => rw [acquire_unknown hl]; exact hk
+  | some l =>
+    by_cases hres : (l.tryAcquire c.id c.prio).2 = .blocked
+    · rw [acquire_blocked hl hres]
+      exact kinv_other (fun x hx => (owns_acquire_blocked hl op' x).mp hx) (Or.inl rfl) hk
+    · refine kinv_other (s := s) (fun x hx => ?_) ?_ hk
+      · rcases (owns_acquire_ok hl hres op' x).mp hx with ⟨_, h⟩ | ⟨_, h⟩
+        · exact absurd h ho
+        · exact h
+      · right
+        rw [acquire_ok hl hres]
+        exact ⟨{ c with acquired := addKey c.acquired r }, fun h => ho h.symm, rfl⟩
+
+theorem kinv_setCtx_other {s : Sys} {c2 : Ctx} {o : Nat} (hne : c2.id ≠ o) (hk : Kinv s o) : Kinv (s.setCtx c2) o :=
+  kinv_other (s := s) (s' := s.setCtx c2) (fun _ h => h) (Or.inr ⟨c2, hne, rfl⟩) hk
+
+theorem kinv_acqLoop_other {o : Nat} : ∀ (req : List Nat) {s : Sys} {c : Ctx}, c.id ≠ o → Kinv s o →
+    Kinv (acqLoop req s c).1 o
+  | [], _, _, _, h => h
+  | r :: rs, s, c, hne, h => by
+    have h1 := kinv_acquire_other (c := c) (fun e => hne e.symm) h r
+    have hid := acquire_id s c r
+    unfold acqLoop
+    generalize hq : acquire s c r = q at h1 hid
+    obtain ⟨s', c', res⟩ := q
+    simp only at h1 hid
+    cases res with
+    | none => exact h1
+    | some lr =>
+      cases lr with
+      | blocked => exact h1
+      | acquired => exact kinv_acqLoop_other rs (by rw [hid]; exact hne) h1
+      | reentrant => exact kinv_acqLoop_other rs (by rw [hid]; exact hne) h1
+      | preempted => exact kinv_acqLoop_other rs (by rw [hid]; exact hne) h1
+
+theorem kinv_finish_other {s : Sys} {c : Ctx} {o : Nat} (hne : c.id ≠ o) (hk : Kinv s o) : Kinv (finish s c).1 o := by
+  have hf := finish_finStep s c
+  constructor
+  · intro c' hcm hcid x hx
+    rw [hf.active] at hcm
+    exact hk.listed c' (List.mem_filter.mp hcm).1 hcid x (hf.owns hx)
+  · intro hno x hx
+    apply hk.unlisted _ x (hf.owns hx)
+    intro c0 hcm hcid
+    apply hno c0 _ hcid
+    rw [hf.active]
+    exact List.mem_filter.mpr ⟨hcm, by simp only [decide_eq_true_eq]; rw [hcid]; exact fun e => hne e.symm⟩
+
+theorem kinv_cbAct_any {s : Sys} {c : Ctx} {o : Nat} (hk : Kinv s o) (a : WorkAct) (tick : Nat) :
+    Kinv (cbAct s c a tick).1 o := by
+  unfold cbAct
+  simp only
+  exact kinv_applyAct (s := { s with now := s.now + tick }) ⟨hk.listed, hk.unlisted⟩ a
+
+theorem kinv_advanceCb_other {s : Sys} {c : Ctx} {o : Nat} (hne : c.id ≠ o) (hk : Kinv s o) (adv : Adv) (i : Nat) :
+    Kinv (advanceCb s c adv i).1 o := by
+  have h1 := kinv_cbAct_any (c := c) hk (adv.cpAct i) (adv.cpTick i)
+  have hid := cbAct_id s c (adv.cpAct i) (adv.cpTick i)
+  unfold advanceCb
+  simp only
+  generalize cbAct s c (adv.cpAct i) (adv.cpTick i) = p at h1 hid ⊢
+  have ha := advance_id' p.1.now p.2 c.phase (adv.cp i)
+  split
+  · exact kinv_setCtx_other (by rw [ha.1, hid]; exact hne) h1
+  · exact h1
+
+theorem kinv_failWith_other {s : Sys} {c : Ctx} {o : Nat} (hne : c.id ≠ o) (hk : Kinv s o) (log : List Ev)
+    (aw : Option Sys) : Kinv (failWith s c log aw).sys o := kinv_finish_other hne hk
+
+theorem kinv_execCommit_other {s : Sys} {c : Ctx} {o : Nat} (hne : c.id ≠ o) (hk : Kinv s o) (adv : Adv)
+    (log : List Ev) (aw : Option Sys) : Kinv (execCommit s c adv log aw).sys o := by
+  unfold execCommit
+  simp only
+  have h1 : Kinv (s.setCtx { c with valPassed := true }) o := kinv_setCtx_other (c2 := { c with valPassed := true }) hne hk
+  have h2 := kinv_advanceCb_other (c := { c with valPassed := true }) hne h1 adv 3
+  have hid := (advanceCb_id (s.setCtx { c with valPassed := true }) { c with valPassed := true } adv 3)
+  generalize advanceCb (s.setCtx { c with valPassed := true }) { c with valPassed := true } adv 3 = a at h2 hid ⊢
+  have hne' : a.2.1.id ≠ o := by rw [hid]; exact hne
+  split
+  · exact kinv_finish_other hne' h2
+  · exact kinv_failWith_other hne' h2 _ _
+
+theorem kinv_execValidate_other {s : Sys} {c : Ctx} {o : Nat} (hne : c.id ≠ o) (hk : Kinv s o) (adv : Adv)
+    (log : List Ev) (aw : Option Sys) : Kinv (execValidate s c adv log aw).sys o := by
+  unfold execValidate
+  simp only
+  have h1 := kinv_advanceCb_other hne hk adv 2
+  have hid := advanceCb_id s c adv 2
+  generalize advanceCb s c adv 2 = a at h1 hid ⊢
+  have hne1 : a.2.1.id ≠ o := by rw [hid]; exact hne
+  have hp := kinv_cbAct_any (c := a.2.1) h1 adv.valAct adv.valTick
+  have hidp := cbAct_id a.1 a.2.1 adv.valAct adv.valTick
+  generalize cbAct a.1 a.2.1 adv.valAct adv.valTick = p at hp hidp ⊢
+  have hnep : p.2.id ≠ o := by rw [hidp]; exact hne1
+  split
+  · split
+    · exact kinv_execCommit_other hne1 h1 adv _ _
+    · exact kinv_execCommit_other hnep hp adv _ _
+    · exact kinv_failWith_other hnep hp _ _
+    · exact kinv_failWith_other hnep hp _ _
+  · exact kinv_failWith_other hne1 h1 _ _
+
+theorem kinv_execWork_other {s : Sys} {c : Ctx} {o : Nat} (hne : c.id ≠ o) (hk : Kinv s o) (adv : Adv)
+    (log : List Ev) : Kinv (execWork s c adv log).sys o := by
+  unfold execWork
+  simp only
+  have hp := kinv_cbAct_any (c := c) hk adv.act adv.tick
+  have hidp := cbAct_id s c adv.act adv.tick
+  generalize cbAct s c adv.act adv.tick = p at hp hidp ⊢
+  have hnep : p.2.id ≠ o := by rw [hidp]; exact hne
+  split
+  · exact kinv_execValidate_other (s := p.1.setCtx { p.2 with execDone := true }) (c := { p.2 with execDone := true })
+      hnep (kinv_setCtx_other (c2 := { p.2 with execDone := true }) hnep hp) adv _ _
+  · exact kinv_failWith_other hnep hp _ _
+
+theorem kinv_start_other {s : Sys} {op o : Nat} (hne : op ≠ o) (hk : Kinv s o) (p : Int) :
+    Kinv (s.start op p).1 o := by
+  unfold Sys.start
+  simp only
+  split
+  · exact kinv_setCtx_other (c2 := { id := op, prio := p, phaseAt := s.now, created := s.now }) hne hk
+  · constructor
+    · intro c' hc' hid x hx
+      rcases List.mem_append.mp hc' with h | h
+      · exact hk.listed c' h hid x hx
+      · simp only [List.mem_singleton] at h
+        subst h
+        exact absurd hid hne
+    · intro hno x hx
+      exact hk.unlisted (fun c hc hid => hno c (List.mem_append_left _ hc) hid) x hx
+
+/-- `execute_operation` for `op` keeps the tracking invariant of every other operation -/
+theorem kinv_exec_other (s : Sys) (op : Nat) (prio : Int) (req : List Nat) (adv : Adv) {o : Nat} (hne : op ≠ o)
+    (hk : Kinv s o) : Kinv (exec s op prio req adv).sys o := by
+  unfold exec
+  simp only
+  have h0 := kinv_start_other hne hk prio
+  have hid0 := start_id s op prio
+  have hne0 : (s.start op prio).2.id ≠ o := by rw [hid0]; exact hne
+  have h1 := kinv_advanceCb_other hne0 h0 adv 0
+  have hid1 := (advanceCb_id (s.start op prio).1 (s.start op prio).2 adv 0).trans hid0
+  generalize advanceCb (s.start op prio).1 (s.start op prio).2 adv 0 = a0 at h1 hid1 ⊢
+  have hne1 : a0.2.1.id ≠ o := by rw [hid1]; exact hne
+  have h2 := kinv_acqLoop_other req hne1 h1
+  have hid2 := (acqLoop_id req a0.1 a0.2.1).trans hid1
+  generalize acqLoop req a0.1 a0.2.1 = q at h2 hid2 ⊢
+  have hne2 : q.2.1.id ≠ o := by rw [hid2]; exact hne
+  split
+  · have h3 : Kinv (q.1.setCtx { q.2.1 with resAcq := true }) o :=
+      kinv_setCtx_other (c2 := { q.2.1 with resAcq := true }) hne2 h2
+    have h4 := kinv_advanceCb_other (c := { q.2.1 with resAcq := true }) hne2 h3 adv 1
+    have hid4 := (advanceCb_id (q.1.setCtx { q.2.1 with resAcq := true }) { q.2.1 with resAcq := true } adv 1).trans hid2
+    generalize advanceCb (q.1.setCtx { q.2.1 with resAcq := true }) { q.2.1 with resAcq := true } adv 1 = a1 at h4 hid4 ⊢
+    have hne4 : a1.2.1.id ≠ o := by rw [hid4]; exact hne
+    split
+    · exact kinv_execWork_other hne4 h4 adv _
+    · exact kinv_failWith_other hne4 h4 _ _
+  · exact kinv_failWith_other hne2 h2 _ _
+
+/-- … and, when `op` owned nothing before, of every operation: the invariant survives the whole call -/
+theorem kinv_exec_all (s : Sys) (op : Nat) (prio : Int) (req : List Nat) (adv : Adv) (hk : ∀ o, Kinv s o)
+    (hown : ∀ x, ¬ Owns s op x) (o : Nat) : Kinv (exec s op prio req adv).sys o := by
+  by_cases ho : op = o
+  · subst ho
+    have hc := clean_exec s op prio req adv hown
+    exact ⟨fun c hcm hid => absurd hid (hc.active c hcm), fun _ => hc.owns⟩
+  · exact kinv_exec_other s op prio req adv ho (hk o)
+
 /-! ### with one entry per waiter, the DFS sees every recorded edge -/
 
 theorem entry_unique : ∀ {E : Edges}, (E.map (·.1)).Nodup → ∀ {e e' : Nat × List (Nat × Nat)},
